@@ -60,6 +60,7 @@ Loss(name, col, hw) ==
       [] name = "mse"  -> AggMean(SqSeq(Err(col)), hw)
       [] name = "mdae" -> AggMedian(AbsSeq(Err(col)), hw)
       [] name = "mdse" -> AggMedian(SqSeq(Err(col)), hw)
+      [] name = "masym" -> AggMean(AsymErr(col, Q(0), "squared", "absolute"), hw)      \* not symmetric in truth / forecast
 NaiveLoss(name, col, sp) ==
     LET e == NaiveErr(col, sp) IN
     CASE name = "mae"  -> MeanN(AbsSeq(e))  [] name = "mse"  -> MeanN(SqSeq(e))
